@@ -146,7 +146,7 @@ pub open spec fn mint_schedule(m: Mint) -> Option<TransferFee> {
 }
 /// the fee withheld from a transfer of x units of this mint
 pub open spec fn mint_fee(m: Mint, x: int) -> int { match mint_schedule(m) { Some(f) => f.fee(x), None => 0 } }
-//@ fn util/v2/token.rs get_epoch_transfer_fee -> r
+//@ fn util/v2/token.rs get_epoch_transfer_fee -> r canary
     ensures
         r matches Ok(o) ==> o == mint_schedule(token_mint.data),
         token_mint.data.owner_program == token_program_id() ==> r matches Ok(None),
@@ -155,7 +155,7 @@ pub open spec fn mint_fee(m: Mint, x: int) -> int { match mint_schedule(m) { Som
 //@ rewrite /token_mint_unpacked\.get_extension::<extension::transfer_fee::TransferFeeConfig>\(\)/ => /token_mint_unpacked.get_transfer_fee_config()/
 //@ end
 
-//@ fn util/v2/token.rs calculate_transfer_fee_excluded_amount -> r
+//@ fn util/v2/token.rs calculate_transfer_fee_excluded_amount -> r canary
     ensures
         // removing the fee from an amount and the fee itself always add back to that amount
         r matches Ok(x) ==> x.amount as int + x.transfer_fee as int == transfer_fee_included_amount as int
@@ -164,7 +164,7 @@ pub open spec fn mint_fee(m: Mint, x: int) -> int { match mint_schedule(m) { Som
         r matches Ok(x) ==> x.transfer_fee as int == mint_fee(token_mint.data, transfer_fee_included_amount as int),
 //@ end
 
-//@ fn util/v2/token.rs calculate_transfer_fee_included_amount -> r
+//@ fn util/v2/token.rs calculate_transfer_fee_included_amount -> r canary
     ensures
         r matches Ok(x) ==> x.amount as int == transfer_fee_excluded_amount as int + x.transfer_fee as int
             // the fee the token program will charge on x.amount is exactly x.transfer_fee, so the vault receives exactly the needed amount
@@ -254,7 +254,7 @@ pub fn parse_token_extensions<'a>(tlv: &'a [u8]) -> (r: Result<TokenExtensions<'
 { unimplemented!() }
 
 /// the schedule in force: the newer one from its epoch on, the older one before (the epoch comes from the Clock sysvar stub)
-//@ fn pinocchio/ported/util_token.rs pino_get_epoch_transfer_fee -> r
+//@ fn pinocchio/ported/util_token.rs pino_get_epoch_transfer_fee -> r canary
     requires token_extensions.transfer_fee_config matches Some(c) ==> c.wf(),
     ensures
         token_extensions.transfer_fee_config is None ==> r matches Ok(None),
@@ -264,7 +264,7 @@ pub fn parse_token_extensions<'a>(tlv: &'a [u8]) -> (r: Result<TokenExtensions<'
             || (current_epoch() < c.newer_epoch() && f.epoch.0 == c.older_epoch() && f.maximum_fee.0 == c.older_max() && f.transfer_fee_basis_points.0 == c.older_bps()))),
 //@ end
 
-//@ fn pinocchio/ported/util_token.rs pino_calculate_transfer_fee_excluded_amount -> r
+//@ fn pinocchio/ported/util_token.rs pino_calculate_transfer_fee_excluded_amount -> r canary
     ensures
         r matches Ok(x) ==> x.amount as int + x.transfer_fee as int == transfer_fee_included_amount as int
             && (x.transfer_fee == 0 || exists|f: TransferFee| #[trigger] f.wf() && x.transfer_fee as int == f.fee(transfer_fee_included_amount as int)),
@@ -272,7 +272,7 @@ pub fn parse_token_extensions<'a>(tlv: &'a [u8]) -> (r: Result<TokenExtensions<'
         r matches Ok(x) ==> x.transfer_fee as int == pino_mint_fee(*token_mint_info, transfer_fee_included_amount as int),
 //@ end
 
-//@ fn pinocchio/ported/util_token.rs pino_calculate_transfer_fee_included_amount -> r
+//@ fn pinocchio/ported/util_token.rs pino_calculate_transfer_fee_included_amount -> r canary
     ensures
         r matches Ok(x) ==> x.amount as int == transfer_fee_excluded_amount as int + x.transfer_fee as int,
         r matches Ok(x) ==> x.transfer_fee as int == pino_mint_fee(*token_mint_info, x.amount as int),
